@@ -212,10 +212,11 @@ func (l *queue) PurgeOlderThan(when time.Time) error {
 		// If this is the last segment, first append a new one allowing
 		// trimming to proceed.
 		if len(l.segments) == 1 {
-			_, err := l.addSegment()
+			seg, err := l.addSegment()
 			if err != nil {
 				return err
 			}
+			l.tail = seg
 		}
 
 		if err := l.trimHead(); err != nil {
